@@ -4,6 +4,7 @@ use vstd::std_specs::cmp::*;
 use core::cmp::Ordering;
 verus! {
 global size_of usize == 8;
+//@ include units/common/float.inc.rs
 //@ item layout21tetris/src/coords.rs :: type Int
 //@ end
 // =====================================================================================================
